@@ -38,10 +38,10 @@ were tied only by the harness.  Here, for the concrete LTS instance `C06Glue.sub
   it stands): ONCE / POLL and `poll`/`eof`; histories with suppressed updates (event-driven emulation
   on: `suppressed_update_not_simulated` for the relation as it is — it demands an empty quiet log —,
   `suppressed_update_lts_run` for the LTS run with a quiet write `w1Quiet` that matches the SEQ state);
-  and the places where the two models genuinely differ — `overlap_dup_differs`
-  (duplicate counts when one request holds overlapping paths), the `CompletePath` error (SEQ ends
+  and the places where the two models genuinely differ — the `CompletePath` error (SEQ ends
   the RPC with a non-status error, the LTS has no such step) and atomic containers (D25: `offered`
-  depends on the notification, the LTS's `wants` on the key only).
+  depends on the notification, the LTS's `wants` on the key only).  Duplicate counts under overlapping
+  paths: `overlap_dup_agrees` (the LTS walker may visit a leaf once per matching path).
 -/
 namespace Gnmi
 namespace C04Refine
@@ -721,23 +721,33 @@ def nB : Noti :=
 def reqD : Sub.Req := { target := "t", mode := .stream, subs := [{ path := ["a"] }, { path := ["a", "b"] }] }
 def histD : List GOp := [.ca (.add "t"), .ca (.update 10 false nB), .sub "s1" .absent (some reqD)]
 
-/-- **The two models disagree on duplicate counts of the initial walk.**  `processSubscription` runs
-one `Cache.Query` per subscription path and `Insert`s every leaf each returns: with overlapping paths
-the leaf `a/b` is inserted twice, and SEQ sends it once with `duplicates = 1`.  The LTS walker visits
-a key at most once per walk (`visit k` is disabled once `k` is among the visited keys), so its client
-is sent the same update with `duplicates = 0`.  This is why `Refine.QRel`/`SentRel` relate queues and
-responses up to duplicate counts (and why `C08.pending_dups_exact` speaks of "at most one walk visit
-per walk").  The real server accepts the SEQ behaviour (`corpus/C04/refine_overlap_dups.ops`). -/
-theorem overlap_dup_differs :
+/-- the LTS run for `histD`: `Cache.Add`; writer unit `W1; W2` for the leaf `a/b`; the handler of client 0 up
+to `<-errC`; the walk visits the leaf **twice** — once for the path `a`, once for the path `a/b` —, the sync
+marker; the sender delivers both -/
+def runD (n : Noti) : List GL :=
+  [.sh (.tAdd "t"), .sh (.w1Add ("t", ["a", "b"]) n), .sh (.w2 (.upd ("t", ["a", "b"]) 1))] ++
+  List.replicate 7 (.sub 0 .hs) ++
+  [.sub 0 (.visit ("t", ["a", "b"])), .sub 0 (.visit ("t", ["a", "b"])), .sub 0 .finish,
+   .sub 0 .next, .sub 0 .build, .sub 0 .sent, .sub 0 .next, .sub 0 .build, .sub 0 .sent]
+
+/-- **The two models agree on the duplicate count of a leaf under overlapping paths** (formerly
+`overlap_dup_differs`: the LTS walker could visit a key once per walk only, so its client was sent the
+update with `duplicates = 0`).  `processSubscription` runs one `Cache.Query` per subscription path and
+`Insert`s every leaf each returns: with the overlapping paths `a` and `a/b` the leaf `a/b` is inserted
+twice, and SEQ sends it once with `duplicates = 1` (the real server does the same:
+`corpus/C04/refine_overlap_dups.ops`).  The LTS walker may now visit a key once per matching path
+(`Req.extra` = the number of *further* matching paths; `C06Glue.extraOf` for actual requests): the run
+`runD` is enabled and its client is sent the update with `duplicates = 1`, then the sync — and a visit
+beyond the number of matching paths is disabled (`SubLTS.visit_beyond_extra`).  (`Refine.QRel` / `SentRel` still relate queues and
+responses up to duplicate counts: the LTS allows one visit per matching path, it does not force it.) -/
+theorem overlap_dup_agrees :
     (grun id { cache := { cfg := { eventDriven := false } } } histD).subs.map
         (fun s => s.out.map (fun r => match r.1 with
           | .upd n d => (some n.ts, d)
           | _ => (none, 0))) = [[(some 1, 1), (none, 0)]] ∧
-    ∀ (sys : LSys) (rq : LReq) (sh : LShared) (b : LSub) (k : K) (todo vis : List K),
-      b.walker = .walking todo vis → k ∈ vis → SubLTS.subFire sys rq sh b (.visit k) = none := by
-  refine ⟨by decide, ?_⟩
-  intro sys rq sh b k todo vis hw hk
-  simp [SubLTS.subFire, hw, hk]
+    (SubLTS.fireAll (C06Glue.subSys (fun _ => (reqD, .absent))) (SubLTS.Cfg.init : LCfg) (runD nB)).map
+        (fun c => (c.subs 0).sent) = some [.upd ("t", ["a", "b"]) nB 1, .sync] := by
+  exact ⟨by decide, by decide⟩
 
 /-! ## two former differences, repaired in the LTS -/
 
